@@ -400,4 +400,13 @@ def build_any(mt, order=None, **kw):
         return build_via_tiger(mt, scratch())
     if order == 'brackets':
         return build_via_brackets(mt, scratch())
+    if order == 'written':
+        # a tree object that was already written once: the export and TIGER-XML writers number the
+        # constituents (data['num'] = 0, 500, 501, ...) and leave other marks on the nodes they wrote
+        import io
+        from trees import treeoutput
+        t = build(mt, **kw)
+        with quiet():
+            treeoutput.export(t, io.StringIO())
+        return t
     return build(mt, child_order=order, **kw)
